@@ -354,6 +354,9 @@ func (j *hvsJob) runOps(ops []*hvsToken, trace func(string)) (int, []fired) {
 		return -1, fs
 	}
 	for i, t := range ops {
+		if t.setRound != 0 && t.setRound <= or.tracked {
+			continue // not offered by the search either
+		}
 		added, err, p := j.apply(h, t)
 		if p != "" {
 			return i, []fired{{"hvs-panic", t.name + " panicked: " + firstLine(p)}}
@@ -430,6 +433,9 @@ func (j *hvsJob) explore() {
 				nd := &nodes[idx]
 				var ex exp
 				for ti, t := range j.toks {
+					if t.setRound != 0 && t.setRound <= nd.or.tracked {
+						continue // SetRound is only ever called with an increasing round
+					}
 					c := ctypes.VerifC02CloneHVS(nd.h, types.VerifC02Clone)
 					added, err, p := j.apply(c, t)
 					ex.tr++
